@@ -217,6 +217,14 @@ func H_Block() {
 				}
 				nd.Assert("C09.instalments-sum-to-proceeds", sum.EQ(proceeds))
 			}
+			// C02: nothing is stranded — whatever went into the vesting escrow is owed to the auctioneer by some instalment
+			{
+				owedSum := nd.ZOf(0)
+				for _, q := range qs {
+					owedSum = owedSum.Add(nd.ZInt(q.PayingCoin.Amount))
+				}
+				nd.Assert("C02.vested-proceeds-all-owed-to-auctioneer", owedSum.EQ(proceeds))
+			}
 		}
 		// the proceeds are everything the paying escrow held minus what went back to bidders
 		if !sp.batch {
@@ -271,6 +279,10 @@ func H_Block() {
 	// ---- C13: extension rule ----
 	if sp.batch && sp.status == types.AuctionStatusStarted {
 		ba := a.(*types.BatchAuction)
+		// RI: the matched price is published at settlement only; while the auction is open it stays zero
+		if ps == types.AuctionStatusStarted {
+			nd.Assert("C16.open-auction-publishes-no-matched-price", ba.MatchedPrice.IsZero())
+		}
 		round := uint32(sp.nEnd - 1)
 		if extended {
 			period := getParams(e).ExtendedPeriod
